@@ -335,6 +335,8 @@ class Concretiser:
         attrs = [self.attr(a) for a in n["at"]]
         if dx == "noend":
             return self.tag_open(n["tag"], attrs, False) + self.nodes(n["ch"])
+        if dx == "cutend":
+            return self.tag_open(n["tag"], attrs, False) + self.nodes(n["ch"]) + "</" + n["tag"] + self.ch(["", " ", "\n"]) + self.CUT
         if dx == "cut":
             s = "<" + n["tag"] + "".join(" " + a for a in attrs)
             return s + self.ch(["", " ", "\n"]) + self.CUT
